@@ -300,6 +300,53 @@ def catchcls_source(kind, loc, rz, shape):
     return prog + call + " print('end'); " + post
 
 
+# a collection that is mutated while it is being iterated (by a for loop, by every callback-running native, by a hand-driven iterator):
+# shrinking, growing, clearing, at the first / a middle / the last element. What the iteration then yields is not specified; it must not crash.
+MI_DRIVERS = [("for", "for x in C { seen.push(x); if n == K { MUT } n += 1; }"), ("each", "C.iter().each(|x| { seen.push(x); if n == K { MUT } n += 1; });"),
+              ("map_list", "seen = C.iter().map(|x| { if n == K { MUT } n += 1; return x; }).list();"), ("filter_list", "seen = C.iter().filter(|x| { if n == K { MUT } n += 1; return true; }).list();"),
+              ("reduce", "C.iter().reduce(0, |a, x| { if n == K { MUT } n += 1; return a; });"), ("all", "C.iter().all(|x| { if n == K { MUT } n += 1; return true; });"),
+              ("any", "C.iter().any(|x| { if n == K { MUT } n += 1; return false; });"), ("manual", "let it = C.iter(); while it.next() { seen.push(it.current()); if n == K { MUT } n += 1; } print(it.current());"),
+              ("len_after", "let it = C.iter().map(|x| x); MUT print(it.len(), it.list());"), ("zip", "seen = C.iter().zip(C.iter()).map(|p| { if n == K { MUT } n += 1; return p; }).list();"),
+              ("into", "seen = C.iter().map(|x| { if n == K { MUT } n += 1; return x; }).into(List.collect);"), ("skip_take", "seen = C.iter().skip(1).take(5).map(|x| { if n == K { MUT } n += 1; return x; }).list();"),
+              ("rev_slice", "for x in C.slice(0) { if n == K { MUT } n += 1; } for x in C { seen.push(x); if n == K + 1 { MUT } n += 1; }")]
+MI_LIST_MUTS = ["C.pop();", "C.remove(0);", "C.clear();", "C.push(9);", "C.insert(0, 9);", "C.pop(); C.pop(); C.pop();", "for i in 40.times() { C.push(i); }", "C.clear(); C.push(7);"]
+MI_MAP_MUTS = ["C.remove('a');", "C.remove('d');", "C['z'] = 1;", "for i in 40.times() { C[i] = i; }", "for k in ['a', 'b', 'c', 'd'] { if C.has(k) { C.remove(k); } }"]
+
+
+def mutiter_source(coll, di, mi, k):
+    dname, drv = MI_DRIVERS[di]
+    mut = (MI_LIST_MUTS if coll == "list" else MI_MAP_MUTS)[mi]
+    init = "[1, 2, 3, 4]" if coll == "list" else "{'a': 1, 'b': 2, 'c': 3, 'd': 4}"
+    body = drv.replace("MUT", mut).replace("K", str(k))
+    return ("fn run() { let C = %s; let seen = []; let n = 0; try { %s } catch e { print('caught', e.cls().name()); } print(seen.len() >= 0, C.len() >= 0); } run(); run(); print('done');"
+            % (init, body))
+
+
+# comparators are user code: constant, alternating, cyclic, data dependent but not an order, failing at the n-th call, mutating the
+# list that is being sorted. The result need not be sorted then, but the runtime must survive and return a permutation of the input.
+SC_SIZES = [0, 1, 2, 5, 21, 33, 100, 300]
+SC_CMPS = [("minus", "return a - b;"), ("reverse", "return b - a;"), ("always_1", "return 1;"), ("always_m1", "return -1;"), ("always_0", "return 0;"),
+           ("alternate", "return k - (k / 2).floor() * 2 == 0 ? 1 : -1;"), ("cycle3", "return k - (k / 3).floor() * 3 - 1;"),
+           ("mixed", "let v = a * 7 + b * 3; return v - (v / 5).floor() * 5 - 2;"), ("nan_at_10", "if k == 10 { return 0 / 0; } return a - b;"),
+           ("string_at_7", "if k == 7 { return 'x'; } return a - b;"), ("raise_at_5", "if k == 5 { raise Error('cmp'); } return a - b;"),
+           ("pop_original", "if k == 3 { l.pop(); } return a - b;"), ("clear_original", "if k == 3 { l.clear(); } return a - b;"), ("grow_original", "if k == 3 { for i in 50.times() { l.push(i); } } return a - b;"),
+           ("sort_inside", "if k == 2 { l.sort(|x, y| y - x); } return a - b;"), ("inf", "return a > b ? 1 / 0 : -1 / 0;")]
+
+
+def sortcmp_source(n, ci):
+    return ("fn run() { let l = %d.times().map(|i| i * 37 - (i * 37 / 11).floor() * 11).list(); let total = l.iter().reduce(0, |a, x| a + x); let n = l.len(); let k = 0; "
+            "try { let s = l.sort(|a, b| { k += 1; %s }); print('perm', s.len() == n, s.iter().reduce(0, |a, x| a + x) == total); } catch e { print('caught', e.cls().name()); } } run(); run(); print('done');"
+            % (n, SC_CMPS[ci][1]))
+
+
+# launch of every kind of callable; methods use their receiver
+LAUNCH_PRE = ("let d = chan(4); class H { init(v) { self.v = v; } send(d) { d <- [self.v, @v]; } static st(d) { d <- 'static'; } both(d, x) { d <- [self.v, x]; } } "
+              "class Sub : H { send(d) { launch super.send(d); } } class I { init(d) { self.d = d; d <- 'init'; } } fn plain(d) { d <- 'plain'; } let h = H(5); ")
+LAUNCH_FORMS = ["launch plain(d);", "launch (|q| { q <- 'lambda'; })(d);", "launch h.send(d);", "launch H(6).send(d);", "let m = h.send; launch m(d);", "launch H.st(d);", "launch I(d);",
+                "Sub(7).send(d);", "launch h.both(d, 'arg');", "launch d.close(); d = chan(4); d <- 'reopened';", "launch print('native');  d <- 'x';", "let l = [3, 1]; launch l.push(2); d <- l;",
+                "launch (|| { launch h.send(d); })();", "fn mk() { let cap = 'cap'; return |q| { q <- cap; }; } launch mk()(d);"]
+
+
 def cberr_source(driver, site, at, place):
     d = dict(CB_DRIVERS)[driver]
     st = dict(CB_SITES)[site]
@@ -380,6 +427,17 @@ class C16(Check):
             for sn, _ in CB_SITES:
                 for at in CB_AT:
                     yield ("cberr", dn, sn, at)
+        for coll, muts in (("list", MI_LIST_MUTS), ("map", MI_MAP_MUTS)):
+            for di in range(len(MI_DRIVERS)):
+                for mi in range(len(muts)):
+                    for k in (0, 1, 3):
+                        yield ("mutiter", coll, di, mi, k)
+        for i in range(len(LAUNCH_FORMS)):
+            for j in range(len(LAUNCH_FORMS)):
+                yield ("launchkinds", i, j)
+        for n in SC_SIZES:
+            for ci in range(len(SC_CMPS)):
+                yield ("sortcmp", n, ci)
         for kn, _, _ in CC_KINDS:
             for loc in CC_LOC:
                 for rn, _ in CC_RAISE:
@@ -422,6 +480,12 @@ class C16(Check):
             return PRE + "print('M'); " + cberr_source(spec[1], spec[2], spec[3], "same")
         if k == "catchcls":
             return PRE + "print('M'); " + catchcls_source(*spec[1:])
+        if k == "launchkinds":
+            return PRE + "print('M'); " + LAUNCH_PRE + LAUNCH_FORMS[spec[1]] + " print(<- d); " + (LAUNCH_FORMS[spec[2]] + " print(<- d); " if spec[2] != spec[1] else "") + "print('done');"
+        if k == "sortcmp":
+            return PRE + "print('M'); " + sortcmp_source(spec[1], spec[2])
+        if k == "mutiter":
+            return PRE + "print('M'); " + mutiter_source(*spec[1:])
         if k == "bound":
             return PRE + "print('M'); " + spec[2]
         if k in ("rec", "selfc", "prot", "err"):
@@ -467,6 +531,8 @@ class C16(Check):
         out = r.get("out", "")
         err = r.get("err", "")
         reached = out.startswith("M\n")
+        if c == "ok" and spec[0] == "sortcmp" and "perm false" in out or (c == "ok" and spec[0] == "sortcmp" and "perm true false" in out):
+            return Verdict(False, True, "sortcmp:not-a-permutation", "List.sort returned a list that is not a permutation of its receiver: %r" % out[-120:])
         if c in ("ok", "deadlock"):
             return Verdict(True, reached, "%s:%s" % (spec[0], c))
         if c == "runtime_error":
@@ -481,7 +547,7 @@ class C16(Check):
         if c == "compile_error":
             return Verdict(True, False, "%s:compile_error" % spec[0])
         if c == "step_limit":
-            if spec[0] in ("catchcls", "cberr"):
+            if spec[0] in ("catchcls", "cberr", "mutiter", "sortcmp", "launchkinds"):
                 return Verdict(False, True, "%s:hang" % spec[0], "a loop free program did not end within %d steps" % 5000000)
             return Verdict(True, False, "%s:step_limit" % spec[0])
         if r.get("mismatch", 0) and False:
